@@ -180,17 +180,20 @@ def c07Texts (byName guard : Bool) (v : SVal) : String :=
   let rt := routeToml byName v
   s!"ts.x={textField rt (textToml byName d v)} tp.x={textField rt (textTomlPretty byName d v)} es.x={textField (routeEdit v) (textEdit d v)} ep.x={if guard then textField (routeEditPretty true v) (textEditPretty d v) else "n/a"}"
 
+/-- every route of one serde value; `kind` = `d<flags>` (or any word followed by the flags) -/
+def c07Val (kind : String) (v : SVal) : String :=
+  let has (c : Char) : Bool := kind.toList.contains c
+  let fx : ValFix := ⟨has 'n', has 't'⟩
+  let t := showT (routeToml (has 'r') v)
+  let e := showT (routeEdit v)
+  s!"ts={t} tp={t} es={e} ep={showT (routeEditPretty (has 'g') v)} ed={showT (serDocument v)} edx={e} vt={showVR (valSer fx v)} tt={showT (tableSer fx (has 'b') v)} {c07Texts (has 'r') (has 'g') v}"
+
 def c07 (line : String) : String :=
   match line.splitOn " " with
   | kind :: toks =>
     if !kind.startsWith "d" then "bad-op" else
-    let has (c : Char) : Bool := kind.toList.contains c
-    let fx : ValFix := ⟨has 'n', has 't'⟩
     match parseSVal toks with
-    | some (v, []) =>
-      let t := showT (routeToml (has 'r') v)
-      let e := showT (routeEdit v)
-      s!"ts={t} tp={t} es={e} ep={showT (routeEditPretty (has 'g') v)} ed={showT (serDocument v)} edx={e} vt={showVR (valSer fx v)} tt={showT (tableSer fx (has 'b') v)} {c07Texts (has 'r') (has 'g') v}"
+    | some (v, []) => c07Val kind v
     | _ => "bad-op"
   | _ => "bad-op"
 
